@@ -166,6 +166,38 @@ func checkC14(c *Ctx, r *Report) {
 		}
 		return out
 	}
+	// guardsFor: the constants K (with the place of the test) such that "<base>.cmd == K" is in force at
+	// instruction at; when there is none there and base is rooted at a parameter of a helper whose call
+	// sites can be enumerated, the union over the call sites for the actual argument - every call site
+	// must contribute at least one, otherwise nothing is returned.
+	type kAt struct{ k, where string }
+	var guardsFor func(at ssa.Instruction, base string, depth int) []kAt
+	guardsFor = func(at ssa.Instruction, base string, depth int) []kAt {
+		var out []kAt
+		for _, k := range cmdsAt(at.Block(), base) {
+			out = append(out, kAt{k, c.pos(at.Pos())})
+		}
+		if len(out) > 0 || depth >= 3 {
+			return out
+		}
+		root, rest := splitRoot(base)
+		idx := paramIndexByName(at.Parent(), root)
+		if idx < 0 {
+			return nil
+		}
+		for _, site := range c.callSites(at.Parent()) {
+			args := site.Common().Args
+			if idx >= len(args) {
+				return nil
+			}
+			ks := guardsFor(site, derefPath(pathOf(args[idx]))+rest, depth+1)
+			if len(ks) == 0 {
+				return nil
+			}
+			out = append(out, ks...)
+		}
+		return out
+	}
 	var judge func(ta *ssa.TypeAssert, want string, fn *ssa.Function, at ssa.Instruction, x ssa.Value, depth int) []string
 	judge = func(ta *ssa.TypeAssert, want string, fn *ssa.Function, at ssa.Instruction, x ssa.Value, depth int) []string {
 		var problems []string
@@ -185,10 +217,9 @@ func checkC14(c *Ctx, r *Report) {
 		// (1) value loaded from <base>.value
 		if px := pathOf(x); strings.HasSuffix(px, ".value") {
 			base := strings.TrimSuffix(px, ".value")
-			ks := cmdsAt(at.Block(), base)
-			if len(ks) > 0 {
+			if ks := guardsFor(at, base, 0); len(ks) > 0 {
 				for _, k := range ks {
-					checkK(k, c.pos(at.Pos()))
+					checkK(k.k, k.where)
 				}
 				return problems
 			}
@@ -200,12 +231,12 @@ func checkC14(c *Ctx, r *Report) {
 				}
 				for _, site := range sites {
 					recv := site.Common().Args[0]
-					ks := cmdsAt(site.Block(), pathOf(recv))
+					ks := guardsFor(site, derefPath(pathOf(recv)), 0)
 					if len(ks) == 0 {
 						problems = append(problems, fmt.Sprintf("%s: %s is called without a dominating test of the command", c.pos(site.Pos()), fn.Name()))
 					}
 					for _, k := range ks {
-						checkK(k, c.pos(site.Pos()))
+						checkK(k.k, k.where)
 					}
 				}
 				return problems
@@ -325,12 +356,13 @@ func checkC14(c *Ctx, r *Report) {
 			}
 			return false, ""
 		},
+		// buf.Bytes()[2:] in whichever function assembles the data frame: decided, not excepted
+		sliceOK: bufferSliceOK,
 		exceptions: map[string]string{
 			"transport/ardop.newBroadcaster$1|index receivers[i]":                                   "loop index discipline: i < len(receivers) is tested at the top of every iteration and i-- only follows the removal of element i",
 			"transport/ardop.newBroadcaster$1|slice receivers[:i]":                                  "same loop: 0 <= i < len(receivers) holds where a receiver is removed",
 			"transport/ardop.newBroadcaster$1|slice receivers[i + 1:]":                              "same loop: i+1 <= len(receivers)",
 			"transport/ardop.readFrameOfType|slice data[:len(data) - 1]":                            "reached only for frame type 'c', where data is the result of ReadBytes whose error was tested nil by the check after the first switch (len >= 1); the correlation between the two switches on fType is not visible to dominance",
-			"(*transport/ardop.tncConn).Write|slice buf.Bytes()[2:]":                                "local data path (Write): the buffer holds at least the two prefix bytes written a few lines above; not reachable with TNC-controlled values",
 			"(transport/ardop.State).String|slice _State_name[_State_index[i]:_State_index[i + 1]]": "generated by stringer: guarded by the range test on i in the line above, table contents constant",
 			"(transport/ardop.State).String|index _State_index[i]":                                  "generated by stringer: guarded by the range test on i",
 			"(transport/ardop.State).String|index _State_index[i + 1]":                              "generated by stringer: guarded by the range test on i",
@@ -501,26 +533,45 @@ func checkC14(c *Ctx, r *Report) {
 		r.Fail("C14-framing", "anchor (*ardop.tncConn).Write not found")
 	} else {
 		where := fnName(fn)
+		// The frame that Write sends on the data channel is assembled in a local buffer - by Write
+		// itself or by a helper whose result Write sends. The conditions on prefix, length, payload and
+		// CRC are stated on that function; its parameters are bound to Write's arguments.
+		fa := c.resolveFrameAsm(fn)
+		asmName := "Write"
+		if fa.call != nil {
+			asmName = fa.fn.Name() + " (whose result Write sends)"
+		}
 		// 16-bit length of the (truncated) data
 		o := r.Add("C14-framing", where, "16-bit length field = len(data written)", c.pos(fn.Pos()))
 		lenOK, truncOK := false, false
 		var written ssa.Value
-		for _, ci := range callsTo(fn, false, "bytes.Buffer.Write") {
-			written = ci.Common().Args[1]
-		}
-		for _, ci := range callsTo(fn, false, "encoding/binary.Write") {
-			v := unwrap2(ci.Common().Args[2])
-			if cv, ok := v.(*ssa.Convert); ok {
-				if bt, ok := cv.Type().Underlying().(*types.Basic); ok && bt.Kind() == types.Uint16 {
-					if call, ok := cv.X.(*ssa.Call); ok && callName(&call.Call) == "builtin.len" && call.Call.Args[0] == written {
-						lenOK = true
+		var payloadWrites []ssa.CallInstruction
+		if fa.fn != nil {
+			for _, ci := range callsTo(fa.fn, false, "bytes.Buffer.Write") {
+				if fa.onBuf(ci) {
+					written = ci.Common().Args[1]
+					payloadWrites = append(payloadWrites, ci)
+				}
+			}
+			for _, ci := range callsTo(fa.fn, false, "encoding/binary.Write") {
+				if !fa.onBuf(ci) {
+					continue
+				}
+				v := unwrap2(ci.Common().Args[2])
+				if cv, ok := v.(*ssa.Convert); ok {
+					if bt, ok := cv.Type().Underlying().(*types.Basic); ok && bt.Kind() == types.Uint16 {
+						if call, ok := cv.X.(*ssa.Call); ok && callName(&call.Call) == "builtin.len" && call.Call.Args[0] == written {
+							lenOK = true
+						}
 					}
 				}
 			}
 		}
 		pr := newProver(c)
 		if written != nil {
-			for _, ci := range callsTo(fn, false, "bytes.Buffer.Write") {
+			// inside a helper the bound follows from the caller facts of the prover: the relation is
+			// proven for the actual argument at every call site
+			for _, ci := range payloadWrites {
 				truncOK = pr.LE(written, true, 0, nil, false, 65535, ci)
 			}
 		}
@@ -530,38 +581,36 @@ func checkC14(c *Ctx, r *Report) {
 		case !truncOK:
 			o.Bad("the data written is not proven to be at most 65535 bytes: the 16-bit length field would wrap")
 		default:
-			o.OK("uint16(len(p)) precedes p, and len(p) <= 65535 is established by the truncation")
+			o.OK("in %s uint16(len(p)) precedes p, and len(p) <= 65535 is established by the truncation", asmName)
 		}
 		o = r.Add("C14-framing", where, "serial prefix D: and CRC over the bytes after it", c.pos(fn.Pos()))
 		prefix, crc := false, false
-		for _, ci := range callsTo(fn, false, "fmt.Fprint") {
-			if dependsOn(ci.Common().Args[1], func(v ssa.Value) bool { s, ok := constString(v); return ok && s == "D:" }) {
-				for _, cd := range condsAt(ci.Block()) {
-					if strings.HasSuffix(pathOf(cd.V), ".isTCP") && !cd.Truth {
-						prefix = true
-					}
+		if fa.fn != nil {
+			for _, ci := range callsTo(fa.fn, false, "fmt.Fprint") {
+				if fa.onBuf(ci) && dependsOn(ci.Common().Args[1], func(v ssa.Value) bool { s, ok := constString(v); return ok && s == "D:" }) && c.serialEdge(ci) {
+					prefix = true
 				}
 			}
-		}
-		for _, ci := range callsTo(fn, false, pkg+".crc16Sum") {
-			if sl, ok := ci.Common().Args[0].(*ssa.Slice); ok {
-				if k, isC := constInt(sl.Low); isC && k == 2 {
-					for _, cd := range condsAt(ci.Block()) {
-						if strings.HasSuffix(pathOf(cd.V), ".isTCP") && !cd.Truth {
-							crc = true
-						}
+			for _, ci := range callsTo(fa.fn, false, pkg+".crc16Sum") {
+				if sl, ok := ci.Common().Args[0].(*ssa.Slice); ok {
+					if k, isC := constInt(sl.Low); isC && k == 2 && c.serialEdge(ci) {
+						crc = true
 					}
 				}
 			}
 		}
 		if prefix && crc {
-			o.OK("on the serial (non-TCP) edge the frame starts with \"D:\" and ends with crc16Sum of everything after the two prefix bytes")
+			o.OK("on the serial (non-TCP) edge the frame starts with \"D:\" and ends with crc16Sum of everything after the two prefix bytes (assembled in %s)", asmName)
 		} else {
 			o.Bad("serial data frames are not framed as D: + length + data + CRC over length and data (prefix: %v, crc: %v)", prefix, crc)
 		}
 		// returns the count accepted
 		o = r.Add("C14-framing", where, "Write reports the number of bytes accepted", c.pos(fn.Pos()))
 		good := true
+		var payload ssa.Value // the slice that is framed, as a value of Write
+		if written != nil {
+			payload = fa.inWrite(written)
+		}
 		for _, ret := range returnsOf(fn) {
 			v := resOf(ret, 0)
 			if isErrorExit(ret) {
@@ -569,11 +618,11 @@ func checkC14(c *Ctx, r *Report) {
 			}
 			isCount := false
 			if ex, ok := v.(*ssa.Extract); ok && ex.Index == 0 {
-				if call, ok := ex.Tuple.(*ssa.Call); ok && callName(&call.Call) == "bytes.Buffer.Write" {
+				if call, ok := ex.Tuple.(*ssa.Call); ok && callName(&call.Call) == "bytes.Buffer.Write" && fa.fn == fn && fa.onBuf(call) {
 					isCount = true
 				}
 			}
-			if call, ok := v.(*ssa.Call); ok && callName(&call.Call) == "builtin.len" && call.Call.Args[0] == written {
+			if call, ok := v.(*ssa.Call); ok && callName(&call.Call) == "builtin.len" && payload != nil && call.Call.Args[0] == payload {
 				isCount = true
 			}
 			if !isCount {
@@ -589,11 +638,9 @@ func checkC14(c *Ctx, r *Report) {
 		o = r.Add("C14-framing", where, "CRCFAULT leads back to the send", c.pos(fn.Pos()))
 		resend := false
 		var sendBlk *ssa.BasicBlock
-		eachInstr(fn, func(b *ssa.BasicBlock, _ int, in ssa.Instruction) {
-			if s, ok := in.(*ssa.Send); ok && strings.HasSuffix(pathOf(s.Chan), ".dataOut") {
-				sendBlk = b
-			}
-		})
+		if fa.send != nil {
+			sendBlk = fa.send.Block()
+		}
 		eachInstr(fn, func(b *ssa.BasicBlock, _ int, in ssa.Instruction) {
 			ifi, ok := in.(*ssa.If)
 			if !ok || sendBlk == nil {
@@ -617,24 +664,29 @@ func checkC14(c *Ctx, r *Report) {
 		// appended again on every retransmission
 		o = r.Add("C14-framing", where, "frame buffer is not modified inside the retransmission loop", c.pos(fn.Pos()))
 		bad := ""
-		var sendVal ssa.Value
-		eachInstr(fn, func(_ *ssa.BasicBlock, _ int, in ssa.Instruction) {
-			if s, ok := in.(*ssa.Send); ok && strings.HasSuffix(pathOf(s.Chan), ".dataOut") {
-				sendVal = s.X
-			}
-		})
-		var bufAddr string
-		if call, ok := sendVal.(*ssa.Call); ok && callName(&call.Call) == "bytes.Buffer.Bytes" {
-			bufAddr = pathOf(call.Call.Args[0])
-		}
 		for _, lp := range naturalLoops(fn) {
-			if sendBlk == nil || !lp.body[sendBlk] {
+			if sendBlk == nil || !lp.body[sendBlk] || fa.fn == nil {
 				continue
 			}
+			if fa.call != nil {
+				// the frame is the helper's result: it must be computed before the loop and only be
+				// sent inside it
+				if lp.body[fa.call.Block()] {
+					continue // rebuilt from scratch on every round: nothing accumulates
+				}
+				for _, ref := range *fa.call.Referrers() {
+					if _, isDbg := ref.(*ssa.DebugRef); isDbg || ref == ssa.Instruction(fa.send) || !lp.body[ref.Block()] {
+						continue
+					}
+					bad = "used at " + c.pos(ref.Pos())
+				}
+				continue
+			}
+			bufAddr := pathOf(fa.buf)
 			for b := range lp.body {
 				for _, in := range b.Instrs {
 					ci, ok := in.(ssa.CallInstruction)
-					if !ok || bufAddr == "" {
+					if !ok {
 						continue
 					}
 					n := callName(ci.Common())
@@ -647,8 +699,8 @@ func checkC14(c *Ctx, r *Report) {
 			}
 		}
 		switch {
-		case bufAddr == "":
-			o.Bad("the frame sent is not the content of a buffer assembled in this function (unresolved)")
+		case fa.fn == nil:
+			o.Bad("the frame sent is not the content of a buffer assembled in this function or in a helper it calls (unresolved: %s)", fa.why)
 		case bad != "":
 			o.Bad("the frame buffer is modified inside the loop that retransmits it (%s): after a CRCFAULT the frame goes out with extra bytes and the host stream loses framing", bad)
 		default:
@@ -784,24 +836,33 @@ func checkC14(c *Ctx, r *Report) {
 		r.Check("C14-flush", fnName(fn), "Write takes the flush lock when the TNC acknowledges the data", c.pos(fn.Pos()), locked,
 			"flushLock.Lock on the BUFFER arm", "Write no longer takes the flush lock: Flush returns immediately after a write")
 	}
+	// The dispatch goroutine: the closures of runControlLoop and every function of the package they
+	// run synchronously (plain static calls) - the arms of the loop may live in helper methods.
+	var dispatchTree []*ssa.Function
+	inDispatch := func(fn *ssa.Function) bool { return strings.Contains(fnName(fn), "runControlLoop$") }
 	if fn := c.Func(pkg, "(*TNC).runControlLoop"); fn != nil {
-		// BUFFER messages reach updateBuffer with the parsed count
+		dispatchTree = c.syncTree(withClosures(fn), pkg)
+	}
+	if fn := c.Func(pkg, "(*TNC).runControlLoop"); fn != nil {
+		// BUFFER messages reach updateBuffer with the parsed count: the call lies in the dispatch
+		// goroutine's call tree, its argument is the value of a message m, and m.cmd == BUFFER holds at
+		// the call (in its function, or at every call site of the helper it lives in)
 		found := false
-		eachInstrDeep(fn, func(in *ssa.Function, i2 ssa.Instruction) {
-			ci, ok := i2.(ssa.CallInstruction)
-			if !ok || !strings.HasSuffix(callName(ci.Common()), ".tncConn.updateBuffer") {
-				return
-			}
-			for _, cd := range condsAt(i2.Block()) {
-				if bo, ok := cd.V.(*ssa.BinOp); ok && bo.Op == token.EQL && cd.Truth {
-					if s, _ := constString(bo.Y); s == "BUFFER" && strings.Contains(pathOf(ci.Common().Args[1]), ".value") {
-						found = true
-					}
+		for _, g := range dispatchTree {
+			for _, ci := range allCalls(g) {
+				if !strings.HasSuffix(callName(ci.Common()), ".tncConn.updateBuffer") || len(ci.Common().Args) < 2 {
+					continue
+				}
+				if c.valueLifted(ci, ci.Common().Args[1], func(at ssa.Instruction, v ssa.Value) bool {
+					m, ok := msgValueOf(v)
+					return ok && c.guardLifted(at, m, cmdIs("BUFFER"), 0)
+				}, 0) {
+					found = true
 				}
 			}
-		})
+		}
 		r.Check("C14-flush", fnName(fn), "BUFFER events update the connection's buffer count", c.pos(fn.Pos()), found,
-			"updateBuffer(msg.value.(int)) on the BUFFER arm", "BUFFER events from the TNC no longer reach updateBuffer")
+			"updateBuffer(msg.value.(int)) on the BUFFER arm of the dispatch goroutine", "BUFFER events from the TNC no longer reach updateBuffer")
 	}
 
 	// ---- C14-ptt
@@ -814,18 +875,32 @@ func checkC14(c *Ctx, r *Report) {
 			}
 			nPTT++
 			_, plain := ci.(*ssa.Call)
-			inLoop := strings.Contains(fnName(fn), "runControlLoop$")
-			arm := false
-			for _, cd := range condsAt(ci.Block()) {
-				if bo, ok := cd.V.(*ssa.BinOp); ok && bo.Op == token.EQL && cd.Truth {
-					if s, _ := constString(bo.Y); s == "PTT" {
-						arm = true
+			// run by the dispatch goroutine only: in one of its closures, or in a helper whose every
+			// call site is a plain call from there
+			inLoop := c.calledOnlyFrom(fn, inDispatch, map[*ssa.Function]bool{})
+			// the argument is m.Bool() of a message m (possibly handed down through a parameter) ...
+			isBool := func(_ ssa.Instruction, v ssa.Value) bool {
+				call, ok := origin(v).(*ssa.Call)
+				return ok && strings.HasSuffix(callName(&call.Call), ".ctrlMsg.Bool")
+			}
+			argOK := c.valueLifted(ci.(ssa.Instruction), ci.Common().Args[0], isBool, 0)
+			// ... and m.cmd == PTT holds where it is taken
+			arm := c.valueLifted(ci.(ssa.Instruction), ci.Common().Args[0], func(at ssa.Instruction, v ssa.Value) bool {
+				if !isBool(at, v) {
+					return false
+				}
+				m, ok := msgValueOf(v)
+				return ok && c.guardLifted(at, m, cmdIs("PTT"), 0)
+			}, 0)
+			if !argOK {
+				// not the message's boolean at all: the arm is judged on the call itself
+				for _, cd := range condsAt(ci.Block()) {
+					if bo, ok := cd.V.(*ssa.BinOp); ok && bo.Op == token.EQL && cd.Truth {
+						if s, _ := constString(bo.Y); s == "PTT" {
+							arm = true
+						}
 					}
 				}
-			}
-			argOK := false
-			if call, ok := ci.Common().Args[0].(*ssa.Call); ok && strings.HasSuffix(callName(&call.Call), ".ctrlMsg.Bool") {
-				argOK = true
 			}
 			o := r.Add("C14-ptt", fnName(fn), "SetPTT", c.pos(ci.Pos()))
 			switch {
@@ -885,22 +960,28 @@ func checkC14(c *Ctx, r *Report) {
 	}
 	// ARQ payloads reach the data channel
 	if fn := c.Func(pkg, "(*TNC).runControlLoop"); fn != nil {
+		// in the dispatch goroutine's call tree: a blocking select sends d.data on the data channel where
+		// d.ARQFrame() holds (in the function of the select, or at every call site of the helper)
 		found := false
-		eachInstrDeep(fn, func(in *ssa.Function, i2 ssa.Instruction) {
-			sel, ok := i2.(*ssa.Select)
-			if !ok {
-				return
-			}
-			for _, stt := range sel.States {
-				if stt.Dir == types.SendOnly && strings.HasSuffix(pathOf(stt.Chan), ".dataIn") && strings.HasSuffix(pathOf(stt.Send), ".data") && sel.Blocking {
-					for _, cd := range condsAt(i2.Block()) {
-						if call, ok := cd.V.(*ssa.Call); ok && cd.Truth && strings.HasSuffix(callName(&call.Call), ".dFrame.ARQFrame") {
-							found = true
-						}
+		for _, g := range dispatchTree {
+			eachInstr(g, func(_ *ssa.BasicBlock, _ int, i2 ssa.Instruction) {
+				sel, ok := i2.(*ssa.Select)
+				if !ok || !sel.Blocking {
+					return
+				}
+				for _, stt := range sel.States {
+					if stt.Dir != types.SendOnly || !strings.HasSuffix(pathOf(stt.Chan), ".dataIn") {
+						continue
+					}
+					if c.valueLifted(sel, stt.Send, func(at ssa.Instruction, v ssa.Value) bool {
+						p := derefPath(pathOf(origin(v)))
+						return strings.HasSuffix(p, ".data") && c.guardLifted(at, strings.TrimSuffix(p, ".data"), methodHolds(".dFrame.ARQFrame"), 0)
+					}, 0) {
+						found = true
 					}
 				}
-			}
-		})
+			})
+		}
 		r.Check("C14-stream", fnName(fn), "ARQ payloads are queued for Read with a blocking send", c.pos(fn.Pos()), found,
 			"d.data is sent on dataIn under d.ARQFrame() with a blocking select", "ARQ payloads are no longer handed to the connection with a blocking send")
 	}
